@@ -177,7 +177,7 @@ def run_driver(pool, lines):
 # ------------------------------------------------------------------ proofs ---
 def theorem_names(vfile):
     txt = open(vfile).read()
-    return re.findall(r'^\s*(?:Theorem|Corollary)\s+(\w+)', txt, re.M)
+    return re.findall(r'^(?:Theorem|Corollary)\s+(\w+)\s*:', txt, re.M)
 
 
 def check_proofs(ctx, files):
